@@ -1,2 +1,3 @@
 SPECIFICATION Spec
+CONSTANT MaxChain = 256
 CHECK_DEADLOCK FALSE
